@@ -87,12 +87,12 @@ def mk_cmp(op, l, r):
             return ("c", any(k == l for k, _ in r[1]))
         if r[0] in ("list", "tuple") and is_const(l) and all(is_const(x) for x in r[1]):
             return ("c", l in r[1])
-        if r[0] in ("list", "tuple", "set") and 0 < len(r[1]) <= 6 and all(is_const(x) for x in r[1]):
+        if r[0] in ("list", "tuple", "set") and 0 < len(r[1]) <= 6 and all(x[0] != "star" for x in r[1]):
             # x in (c1, c2, ...)  ==  x == c1 or x == c2 or ...
             return mk_bool("or", [mk_cmp("==", l, x) for x in r[1]])
         return ("cmp", "in", l, r)
     if op == "not in":
-        return mk_not(("cmp", "in", l, r))
+        return mk_not(mk_cmp("in", l, r))
     raise AnalysisError("unsupported comparison %s" % op)
 
 
@@ -299,6 +299,17 @@ def pretty(s, depth=0):
     if k == "rep":
         return "%s*%s" % (pretty(s[1]), pretty(s[2]))
     return "%s(%s)" % (k, ", ".join(pretty(x) if isinstance(x, tuple) else repr(x) for x in s[1:]))
+
+
+def _as_display(v):
+    """a constant mapping (class-level template, MappingProxyType of a literal) as a dict display Sym"""
+    if v[0] == "c" and isinstance(v[1], dict) and all(isinstance(k, (str, int)) for k in v[1]):
+        def lift(x):
+            if isinstance(x, (list, tuple)) and not isinstance(x, str):
+                return ("list" if isinstance(x, list) else "tuple", tuple(lift(y) for y in x))
+            return ("c", x)
+        return ("dict", tuple((("c", k), lift(val)) for k, val in v[1].items()))
+    return v
 
 
 class Eff:
@@ -526,7 +537,24 @@ class SymEval:
         return ("tuple", tuple(self.expr(e) for e in n.elts))
 
     def e_Dict(self, n):
-        return ("dict", tuple((self.expr(k) if k is not None else ("c", "**"), self.expr(v)) for k, v in zip(n.keys, n.values)))
+        items = []
+        for k, v in zip(n.keys, n.values):
+            vs = self.expr(v)
+            if k is None:
+                vs = _as_display(vs)
+                if vs[0] == "dict" and all(kk != ("c", "**") for kk, _ in vs[1]):
+                    # {**d, ...} with d a display (or a constant mapping): spliced, later keys win
+                    for kk, vv in vs[1]:
+                        items = [(a, b) for a, b in items if a != kk]
+                        items.append((kk, vv))
+                    continue
+                items.append((("c", "**"), vs))
+                continue
+            ks = self.expr(k)
+            if is_const(ks):
+                items = [(a, b) for a, b in items if a != ks]
+            items.append((ks, vs))
+        return ("dict", tuple(items))
 
     def e_Set(self, n):
         return ("set", tuple(self.expr(e) for e in n.elts))
@@ -653,6 +681,8 @@ class SymEval:
             if okx and len({k for k, _ in flat}) == len(flat):
                 kwargs = tuple(flat)
         # dict(a=x, b=y)  ==  {'a': x, 'b': y};   dict(d, c=z) with d a display: merged
+        if f == ("glob", "dict") and len(args) == 1:
+            args = (_as_display(args[0]),)
         if f == ("glob", "dict") and all(k != "**" for k, _ in kwargs) and (not args or (len(args) == 1 and args[0][0] == "dict")):
             base = list(args[0][1]) if args else []
             keys = {k for k, _ in base}
@@ -686,10 +716,18 @@ class SymEval:
             for it_ in args[0][1]:
                 acc = mk_bin("+", acc, it_)
             return acc
+        if f in (("glob", "list"), ("glob", "tuple")) and len(args) == 1 and not kwargs and args[0][0] == "c" and isinstance(args[0][1], (tuple, list)) \
+                and len(args[0][1]) <= 64:
+            return ("list" if f[1] == "list" else "tuple", tuple(("c", y) for y in args[0][1]))
+        if f == ("glob", "divmod") and len(args) == 2 and not kwargs:
+            return ("tuple", (mk_bin("//", args[0], args[1]), mk_bin("%", args[0], args[1])))
         if f == ("glob", "int") and len(args) == 1 and is_const(args[0]) and isinstance(args[0][1], (int, float)):
             return ("c", int(args[0][1]))
         if f == ("glob", "list") and len(args) == 1 and (args[0][0] in ("list", "cat", "pad") or (args[0][0] == "sub" and args[0][2][0] == "slice")):
             return args[0]   # a copy of a fresh list / slice: same value
+        if f == ("glob", "tuple") and len(args) == 1 and not kwargs and args[0][0] not in ("list", "tuple", "cat", "pad", "c", "comp"):
+            # an immutable snapshot of a container: for every rule the same thing as list(x)
+            f = ("glob", "list")
         # x.to_bytes(n, 'little') with constant n: the n little-endian bytes of x
         if f[0] == "attr" and f[2] == "to_bytes":
             kw = dict(kwargs)
@@ -906,6 +944,15 @@ class SymEval:
             cur = self.env[t.value.id]
             if not is_heap_path(cur):
                 idx = self.e_index(t.slice)
+                # data[a:b] = [x, y, ...] on a list display with constant bounds: the slice is replaced by the elements
+                if cur[0] == "list" and idx[0] == "slice" and idx[3] is None and v[0] in ("list", "tuple") and \
+                        all(b is None or (is_const(b) and isinstance(b[1], int)) for b in (idx[1], idx[2])):
+                    items = list(cur[1])
+                    lo = idx[1][1] if idx[1] is not None else None
+                    hi = idx[2][1] if idx[2] is not None else None
+                    items[lo:hi] = list(v[1])
+                    self.env[t.value.id] = ("list", tuple(items))
+                    return
                 if cur[0] == "list" and is_const(idx) and isinstance(idx[1], int) and -len(cur[1]) <= idx[1] < len(cur[1]):
                     items = list(cur[1])
                     items[idx[1]] = v
